@@ -39,3 +39,11 @@ META['C05'] = dict(
                'state (len, get/contains of every key, a full callback iteration, destructor log, outstanding allocations incl. duplicated keys) is compared with the monitor.',
     level_note='Depth-bounded (not a fixpoint): layouts needing longer histories are not reached. The tiny table needs the guarded hook LIBMODULE_VERIF_MAP_SIZE.')
 HOOK_COMMITS.append('476a627')
+
+META['C06'] = dict(
+    engine='schedx', design_ref='4, 6/C06',
+    technique='stateless model checking of the real thread pool: serialising scheduler over wrapped pthread operations, preemption-bounded exhaustive schedule enumeration (iterative context bounding) with happens-before state pruning; ASan and TSan as per-schedule oracles',
+    level_text='For every small pool configuration (1-2 threads x 1-2 tasks, thorough 3x3; eager/LAZY/DETACHED/LAZY|DETACHED; wait_all on/off; main or two concurrent submitter threads; a task submitting to its own pool) '
+               'every schedule of the real worker/submitter/free code at lock/unlock/cond/create/join/yield granularity within the preemption budget (2, thorough 3; +1 spurious wake-up) is executed; '
+               'each execution is judged by task counters, free-return obligations, scheduler verdicts (deadlock, parked thread, use of a destroyed mutex/condition) and ASan; a TSan build of the same harness reports data races on each enumerated schedule.',
+    level_note='Sequentially consistent interleavings; C11 atomics and plain memory accesses are not scheduling points (races on them are left to TSan); pthread primitives are modelled by the scheduler, not glibc.')
